@@ -198,7 +198,9 @@ def cell_update(old, new, key, arg, value):
       ni(key).dom[arg], ni(key).val[arg] == value)
 
 
-c = Contract('config.py::bind_parameter', ['C11', 'C12', 'C16'])
+# (C05: a macro is the binding (name, 'gin.macro', 'value'); "the value most recently bound" is this
+# function's exactly-one-cell postcondition)
+c = Contract('config.py::bind_parameter', ['C11', 'C12', 'C16', 'C05'])
 c.param('binding_key', KVal)
 c.param('value', KVal)
 c.param('location', KVal, default=lambda ex: VObj(sym.VAL_NONE))
